@@ -170,7 +170,10 @@ def getRenderReq (j : Json) : Except String RenderReq := do
     enableDataAttributes := flag "enable_data_attributes" false,
     enableCommentInterpolation := flag "enable_comment_interpolation" true,
     restrictedNamespace := flag "restricted_namespace" true,
-    implicitI18nTranslate := flag "implicit_i18n_translate" false }
+    implicitI18nTranslate := flag "implicit_i18n_translate" false,
+    implicitI18nAttrs := match cfg.getObjVal? "implicit_i18n_attributes" with
+      | .ok (.arr a) => a.toList.filterMap (fun x => match x with | .str s => some (Str.ofString s) | _ => none)
+      | _ => [] }
   pure { src := src, textMode := flag "text_mode" false, strict := flag "strict" true, bcfg := bcfg,
          booleanAttrs := booleans, oracle := oracle, tab := tab, vars := vars,
          pyBuiltins := Gen.pyBuiltins, talesExc := Gen.talesExceptions, existsExc := Gen.existsExceptions,
